@@ -314,6 +314,9 @@ def _get_path(grid, obj, paths):
             obj = obj[path]
             if i != len(paths)-1 and isinstance(obj, Ref):
                 obj = _follow_ref(grid, obj)  # Follow the reference
+        if obj is None:
+            # A null cell: the row does not have that tag
+            return NOT_FOUND
         return obj  # It's a value at this time
     except (KeyError, TypeError, IndexError):
         # Absent tag, dangling reference, or a step through a value that is
